@@ -37,8 +37,9 @@ From Snow Require Import Lib.Wire Model.IpClass Model.SdpStrip.
 Import ListNotations.
 Open Scope N_scope.
 
-(* (c, err) as returned by ice.UnmarshalCandidate: c = None is the nil interface; for a non-nil c,
-   its type and net.ParseIP(c.Address()) *)
+(* (c, err) as returned by ice.UnmarshalCandidate: c = None is a value on which a method call panics:
+   the nil interface, or a nil pointer inside the interface (which pion/ice returns, together with an
+   error, when a candidate constructor fails); otherwise its type and net.ParseIP(c.Address()) *)
 Record ucand := mkUcand { uc_c : option (ctype * option bytes); uc_err : bool }.
 
 Inductive pattr :=
